@@ -1400,7 +1400,7 @@ def probability_bounds(v, bounds):
     numpy.array of bounded values
     """
     v = np.array(v, dtype=float)  # copy, so the input object is never written to
-    if type(bounds) is float:  # Symmetric Bounding
+    if isinstance(bounds, float):  # Symmetric Bounding
         if bounds < 0 or bounds > 1:
             raise ValueError('Bound value must be between (0, 1)')
         v[v < bounds] = bounds
